@@ -69,6 +69,14 @@ CHECKS = {
    technique="TLA+ Main.tla (start-up as a sequential program over fault sets) checked with TLC; every configuration created for real and run with the real binary on a pty or without a terminal (replay conformance)",
    text="Main.tla orders the start-up steps and states NeverCrashes, CleanFailure, FailsWhenItMust, TermiosRestored; TLC enumerates every fault set of size <= 2 x informational flag x TTY yes/no x exit key and emits the outcomes the statement allows; each configuration is produced with real files, bound ports and a pseudo-terminal (or a session without one) and the real binary is run: exit status, no panic text or fatal signal, the message names a cause that is present, termios before start equals termios after exit.",
    note="Fault classes are the enumerated ones; permission faults use ENOTDIR because checks run as root. -icanhazip fails because the sandbox is offline."),
+ "C05": dict(level="model_checking", design="DESIGN.md §6 C05, §4.3",
+   technique="TLA+ Identity.tla (AdvertisedIsServed over histories of runs and advertising actions) model-checked with TLC; every edge of its graph replayed with the real binary on a pty, pins compared with the key seen in a TLS handshake, plus real curl --pinnedpubkey",
+   text="Identity.tla carries the set of fingerprints a run has advertised (start-up one-liners, scripts at /c, help re-printed after a shell died) and states that it is exactly the key served, over histories of cached / uncached runs, stops, interrupted saves, damage and deletion; histories covering every edge are replayed with the real binary on a pseudo-terminal with seeded listen-address forms (IPv4/IPv6, with/without port), -callback-address forms and -serve-files-from; every pin on the terminal and in /c is compared with base64(SHA-256(SPKI)) of the leaf a handshake on the bound port presents, printed addresses must carry the bound port unless the user gave one, and real curl must connect with the advertised pin and fail with another.",
+   note="Trusted: crypto/tls, x509, SHA-256 (treated as injective), curl 7.88."),
+ "C07": dict(level="model_checking", design="DESIGN.md §6 C07, §4.2",
+   technique="TLA+ Script.tla (C2URL precedence, template-file state machine, fresh IDs) checked with TLC; every source combination and every template history replayed against a real hsrv over raw TLS; scripts executed by real /bin/sh + curl",
+   text="Script.tla gives the callback address as a function of which sources a request carries and the template file as a state machine re-read per request; TLC enumerates all 288 source combinations (incl. POST form bodies, HTTP/1.0 without Host, SNI, listen port 443) and all edit/request histories up to the bound; each is played against a real server (real file edits, removals, re-creations), the script is taken apart (both pins = hash of the presented leaf, same URL, same safe ID, never repeated), thousands of scripts are requested for ID freshness, and scripts are piped to real /bin/sh with real curl until a command round-trips through the attached shell.",
+   note="A raw UTF-8 Host never reaches the handler (net/http answers 400); the IDNA clause is exercised with hosts net/http lets through."),
 }
 
 PENDING = {}
